@@ -536,6 +536,56 @@ func main() {
 	})
 
 	lap("seeded vector pairs")
+	// ---- FLAT / GLOBAL probes through the real emu storage accessor (realacc.go)
+	{
+		var memProbes []*probe
+		for _, p := range vecProbes {
+			if p.mem != memNone && !p.lds {
+				pr := *p
+				pr.real = true
+				memProbes = append(memProbes, &pr)
+			}
+		}
+		nReal := c.N(60, 600)
+		if os.Getenv("C06_ONLY_CANONICAL") != "" {
+			nReal = 0
+		}
+		realBase := c.Rand("real-accessor")
+		vlib.Parallel(len(memProbes), 0, func(i int) {
+			rn := runners.Get().(*runner)
+			defer runners.Put(rn)
+			p := memProbes[i]
+			st := newStats()
+			var fs []finding
+			cb := vlib.NewPRNG(0xC06BA7EA1).Fork(p.ID)
+			for _, ps := range canonicalPairs(p) {
+				ps := ps
+				ps.Phase = "real-canonical"
+				if rf.on && !want(p, ps.Phase, ps.Index) {
+					continue
+				}
+				fs = append(fs, runPair(rn, p, &ps, cb.ForkN("pair", ps.Index), st, nil)...)
+			}
+			pb := realBase.Fork(p.ID)
+			for _, ps := range seededPairs(p, nReal, pb) {
+				ps := ps
+				ps.Phase = "real-seeded"
+				if rf.on && !want(p, ps.Phase, ps.Index) {
+					continue
+				}
+				fs = append(fs, runPair(rn, p, &ps, pb.ForkN("pair", ps.Index), st, nil)...)
+			}
+			report(p, fs)
+			absorb(p, st)
+		})
+		c.Count("real_accessor_probes", int64(len(memProbes)))
+		c.Count("real_accessor_executions", realStats.runs)
+		c.Count("real_accessor_accesses", realStats.accesses)
+		c.Count("real_accessor_accesses_crossing_a_page", realStats.crossing)
+		c.Count("real_accessor_accesses_to_offset_0_right_after_an_access_to_the_preceding_virtual_page", realStats.headAfterPrev)
+		c.Count("real_accessor_physical_pages_read_back", realStats.pagesChecked)
+	}
+	lap("real storage accessor")
 	// ---- scalar side --------------------------------------------------------
 	scalarBase := c.Rand("scalar")
 	var scalarExec, scalarPairsN int64
@@ -609,6 +659,8 @@ func main() {
 		"vector_opcodes_exercised_cdna3_VOP1": 22, "vector_opcodes_exercised_cdna3_VOP2": 30, "vector_opcodes_exercised_cdna3_VOPC": 24,
 		"vector_opcodes_exercised_cdna3_VOP3a": 48, "vector_opcodes_exercised_cdna3_VOP3b": 6, "vector_opcodes_exercised_cdna3_DS": 7, "vector_opcodes_exercised_cdna3_FLAT": 9,
 		"scalar_opcodes_exercised": 100,
+		"real_accessor_probes":     30, "real_accessor_executions": 5000, "real_accessor_accesses": 100000, "real_accessor_accesses_crossing_a_page": 2000,
+		"real_accessor_accesses_to_offset_0_right_after_an_access_to_the_preceding_virtual_page": 2000,
 	}
 	if os.Getenv("C06_NO_INITEXEC") == "" {
 		for k, v := range ixMinCounters() {
@@ -629,6 +681,9 @@ func main() {
 			"LDS reads cannot be observed directly (the ALU indexes a byte slice): reads from another lane's LDS region are caught through equivariance and the scramble relation, writes through the region / canary comparison",
 			"implemented = at least one encoding of the opcode number runs to completion under one of five fixed EXEC masks; a handler that panics on all of them is listed, not judged",
 			ixAssumption1, ixAssumption2, ifAssumption,
+			"real-accessor variant: FLAT / GLOBAL probes run through the real emu.NewStorageAccessor over mem.Storage + vm.PageTable (consecutive virtual pages -> shuffled frames 2k+1, the frame behind every mapped frame is unmapped); " +
+				"the monitor writes the initial content and reads the final content of the frames through its own translation table; a lane's address is the last 16 bytes of its region, offset 0 of its region (virtual successor of the previous lane's last page), " +
+				"just below / at an inner page boundary, or inside a page; accesses never leave the lane's own region",
 		},
 		MinNontrivial: 250,
 		MinCounters:   minCounters,
